@@ -100,11 +100,15 @@ theorem mrelM_write (b : Bytes) : MRelM t Eq (writeM b) (writeM b) := mrelM_of_e
 theorem mrelM_trimLeft : MRelM t Eq trimLeftM trimLeftM := mrelM_of_envFree envFree_trimLeft
 theorem mrelM_trimRight : MRelM t Eq trimRightM trimRightM := mrelM_of_envFree envFree_trimRight
 
+theorem mrelM_writeVerbatim (b : Bytes) : MRelM t Eq (writeVerbatimM b) (writeVerbatimM b) := by
+  unfold writeVerbatimM
+  exact mrelM_bind (mrelM_write []) (fun _ _ _ => mrelM_bind (mrelM_write b) (fun _ _ _ => mrelM_flush))
+
 theorem mrelM_writeAll : ∀ cs, MRelM t Eq (writeAllM cs) (writeAllM cs)
   | [] => mrelM_pure rfl
   | c :: cs => by
     unfold writeAllM
-    exact mrelM_bind (mrelM_write c) (fun _ _ _ => mrelM_writeAll cs)
+    exact mrelM_bind (mrelM_writeVerbatim c) (fun _ _ _ => mrelM_writeAll cs)
 
 theorem mrelM_tablerowBefore (cols i : Nat) : MRelM t Eq (tablerowBefore cols i) (tablerowBefore cols i) := by
   unfold tablerowBefore
@@ -496,7 +500,7 @@ theorem mp_renderNode (c : RCtx) (hP : PrimsRespectM t c.P) (hO : OutRespectM t 
     rcases hl.cyclesOf with rfl | ⟨h1, h2⟩
     · split
       · exact mrelM_fail _
-      · exact mrelM_bind (mrelM_setVar _ (MP.refl _)) (fun _ _ _ => mrelM_bind (mrelM_write _) (fun _ _ _ => mrelM_pure rfl))
+      · exact mrelM_bind (mrelM_setVar _ (MP.refl _)) (fun _ _ _ => mrelM_bind (mrelM_writeVerbatim _) (fun _ _ _ => mrelM_pure rfl))
     · simp only [h1, h2]
       exact mrelM_fail _
   | .brk line => by unfold renderNode; exact mrelM_pure rfl
@@ -513,7 +517,7 @@ theorem mp_renderNode (c : RCtx) (hP : PrimsRespectM t c.P) (hO : OutRespectM t 
         subst h
         obtain ⟨st, out⟩ := r
         cases st with
-        | done => exact mrelM_bind (mrelM_write _) (fun _ _ _ => mrelM_pure rfl)
+        | done => exact mrelM_bind (mrelM_writeVerbatim _) (fun _ _ _ => mrelM_pure rfl)
         | brk e => exact mrelM_pure rfl
         | cont e => exact mrelM_pure rfl
       · exact mrelM_fail _
